@@ -200,3 +200,43 @@ func VerifC07_BlobFidelity() {
 	verif.Assert(err == nil && verif.BytesEq(wire, wire2), "re-encoding the decoded blob reproduces it byte for byte")
 	verif.Reached("end")
 }
+
+// device side: the redirect blob the device was given (by TO1) is used only if the
+// voucher's owner key signed it; otherwise TO2 is aborted before ProveDevice.
+func VerifC07_DeviceChecksBlob() {
+	verif.NoPanic()
+	verif.Expect("blob accepted")
+	verif.Expect("blob refused")
+	verif.Bound("C07 device", "P-256/P-384; honest owner service and voucher (one entry); redirect blob with one address, symbolic to0d hash, protected alg in {ES256, ES384, unregistered}, payload present, signature = any bytes of the owner key's signature length; transport stops at ProveDevice")
+	kind := verif.Choose("kind", 2)
+	t := vMkTO2World(kind, false)
+	t.loop.cutAt, t.loop.cutKind = 2, 0 // 60, 62, then 64 is lost
+	dns := "o"
+	blob := protocol.To1d{
+		RV:       []protocol.RvTO2Addr{{DNSAddress: &dns, Port: verif.U16("port"), TransportProtocol: protocol.HTTPTransport}},
+		To0dHash: protocol.Hash{Algorithm: protocol.Sha256Hash, Value: verif.Bytes("to0dhash", 32)},
+	}
+	algs := []int64{int64(cose.ES256Alg), int64(cose.ES384Alg), 0}
+	alg := algs[verif.Choose("blobalg", 3)]
+	to1d := &cose.Sign1[protocol.To1d, []byte]{Payload: cbor.NewByteWrap(blob)}
+	to1d.Protected = cose.HeaderMap{cose.AlgLabel: alg}
+	to1d.Unprotected = cose.HeaderMap{}
+	ownerPub := t.c.owner.Public()
+	to1d.Signature = verif.Bytes("to1dsig", verif.SigLen(ownerPub))
+	cred, err := TO2(context.Background(), t.loop, to1d, t.cfg)
+	verif.Assert(cred == nil && err != nil, "the run is cut at ProveDevice")
+	sent64 := false
+	for _, m := range t.loop.sent {
+		if m == protocol.TO2ProveDeviceMsgType {
+			sent64 = true
+		}
+	}
+	if !sent64 {
+		verif.Reached("blob refused")
+		return
+	}
+	verif.Reached("blob accepted")
+	payloadEnc, e := cbor.Marshal(blob)
+	verif.Assert(e == nil, "harness: blob encodes")
+	verif.Assert(vwSpecSigned(kind, ownerPub, alg, payloadEnc, to1d.Signature), "the device goes on to ProveDevice => the redirect blob is signed by the voucher's owner key over exactly its protected header and payload")
+}
